@@ -562,6 +562,11 @@ theorem exec_answer_valid (st : St) (op : Op) (h : All CacheInv st) :
       have := clone_inv (h _ _ hcell)
       exact showSig_valid ((h.put _ this.1).put _ this.2) r _ rfl
     · trivial
+  | addseq hd bytes force =>
+    simp only [exec]
+    split
+    · split <;> trivial
+    · trivial
   | unparsed => trivial
   | reset => trivial
   | skip => trivial
